@@ -6,7 +6,8 @@ slices [t_a:t_b] including the whole span in either orientation.
 Oracle: Python sequence semantics for int indices (value equals (t[i], y[i]); IndexError exactly when a list of that
 length raises); iteration yields each recorded (t, y) once, in order; with dense output system[t].y == sol(t);
 without, system[t] is a recorded sample whose |t_i - t| is minimal (ties either way); the slice over the whole span
-returns every sample.
+returns every sample. Between the two calls of a split run a time lookup is made; the first lookup after the
+continuing call repeats it and must give the same (t, y) bit for bit.
 """
 import numpy as np
 from hypothesis import strategies as st
